@@ -311,6 +311,17 @@ def badeq_value(con, case, src):
     return None
 
 
+BADALT = {"validate_user": 33.5, "validate_group": 33.5, "validate_string": ["x"], "validate_pos_int": [1], "validate_bool": 2,
+          "validate_dict": "x", "validate_list_string": 7, "validate_string_to_list": 7, "validate_header_map_behaviour": 5,
+          "validate_chdir": 5, "validate_statsd_address": 5, "validate_string_to_addr_list": 5}
+
+
+def badalt_value(con):
+    """another invalid value for the setting, of a type its validator does not expect at all (the validator then fails
+    with whatever exception the first operation on it raises: AttributeError, TypeError, ...)"""
+    return BADALT.get(getattr(con.S.validator, "__name__", "?"))
+
+
 def run_case(con, case, mods):
     gconfig, gutil, WSGIApplication = mods
     wd = con.wd
@@ -327,6 +338,13 @@ def run_case(con, case, mods):
                 beq[src] = x
         if not beq:
             return {"skip": "inexpressible"}
+    if case.get("badalt"):
+        x = badalt_value(con)
+        if x is None or "bad" not in (case["fw"], case["file"]):
+            return {"skip": "inexpressible"}
+        for src in ("fw", "file"):
+            if case[src] == "bad":
+                beq[src] = x
     files = list(case["files"])
     chosen = "cli" if "cli" in files else "env" if "env" in files else "cwd" if "cwd" in files else None
     paths = {"cwd": os.path.join(wd, "gunicorn.conf.py"), "env": os.path.join(wd, "env.conf.py"),
@@ -349,6 +367,12 @@ def run_case(con, case, mods):
                 text += con.file_text(case["file"])
         else:
             text += con.file_text(decoy)
+        # a global that is not the setting: the same name in upper case, with the other valid value (configuration
+        # files are Python modules; only the documented lower-case names are settings)
+        if con.kind != "hook" and con.name not in ("config",) and con.can("file", decoy):
+            other = con.file_text(decoy)
+            if other and other.startswith(con.name + " = "):
+                text += con.name.upper() + other[len(con.name):]
         with open(paths[src], "w") as f:
             f.write(text)
     argv = ["gunicorn"]
